@@ -3,19 +3,20 @@
     identifiers, integer and double literals of either sign, true / false / null, string and
     bytes literal tokens, prefix runs of any length,
     * / %, + -, the seven relations, && / || chains of any length, ?:, explicit parentheses,
-    field selection, indexing, member and global calls (of names that are not macros), list, map
+    field selection, indexing, member and global calls - a macro call being the tree its expander
+    builds around the receiver's and the arguments' trees (C04_macro_trees) -, list, map
     and message literals (dotted type names, with or without the leading dot) - rendered with minimal parentheses: at token level with the fuel [compile]
     itself uses (the parse holds for all sufficient fuel, more fuel never changes an answer,
     and the parser's own fuel is never exhausted), and from source text; the operand order of
     && / || chains; the cancellation of prefix runs; that macros expand around their receiver
-    and arguments.  Outside the round-trip theorem: macro calls inside the trees, trailing commas and the
+    and arguments.  Outside the round-trip theorem: trailing commas and the
     optional-field syntax the parser refuses; the correspondence run covers those (every tree with up to 2 (thorough: 3)
     operators, random deeper ones, fully and minimally parenthesised) and checks on every tree
     of the theorem's domain that the real lexer's tokens are the rendering [raw]. *)
 From Coq Require Import String Ascii.
 From Cel.Model Require Import Parser.
 From Cel.Model Require Import Surface.
-From Cel.Proofs Require Import PrecedenceProofs ParserRoundtrip ParserFuel LexerRoundtrip.
+From Cel.Proofs Require Import PrecedenceProofs ParserRoundtrip MacroTrees ParserFuel LexerRoundtrip.
 
 (** Chains of && / || keep their operands in source order: for every number of operands the
     tree built for t0 op t1 op ... tn ([logic_tree], applied by the parser's chain loops to the
@@ -117,6 +118,39 @@ Example C04_ex_postfix :
   compile $"x.f(a + b, [1, {k: !c}])[i].g * 2" = CExpr (ast t).
 Proof. vm_compute. repeat split; try discriminate; reflexivity. Qed.
 
+(** Macro calls are trees of the theorems above: the tree of r.all(x, p) is the comprehension
+    built around the trees of r and p, and so on for each macro; such a tree is well formed
+    exactly when its parts are, and only a plain name is accepted as the iteration variable. *)
+Theorem C04_macro_trees : forall a x p q f,
+  ast (SMCall a $"all" [SId x; p]) = expand_all (ast a) x (ast p) /\
+  ast (SMCall a $"exists" [SId x; p]) = expand_exists (ast a) x (ast p) /\
+  ast (SMCall a $"exists_one" [SId x; p]) = expand_exists_one (ast a) x (ast p) /\
+  ast (SMCall a $"existsOne" [SId x; p]) = expand_exists_one (ast a) x (ast p) /\
+  ast (SMCall a $"filter" [SId x; p]) = expand_filter (ast a) x (ast p) /\
+  ast (SMCall a $"map" [SId x; p]) = expand_map (ast a) x None (ast p) /\
+  ast (SMCall a $"map" [SId x; p; q]) = expand_map (ast a) x (Some (ast p)) (ast q) /\
+  ast (SCall $"has" [SSel a f]) = ESelect (ast a) f true.
+Proof. exact macro_asts. Qed.
+
+Theorem C04_macro_wf : forall a m x p q f, macro2 m ->
+  (wf_st (SMCall a m [SId x; p]) <-> wf_st a /\ wf_st p) /\
+  (wf_st (SMCall a $"map" [SId x; p; q]) <-> wf_st a /\ wf_st p /\ wf_st q) /\
+  (wf_st (SCall $"has" [SSel a f]) <-> wf_st a).
+Proof. exact macro_wf. Qed.
+
+Theorem C04_macro_var_needed : forall a m v p, macro2 m -> (forall x, ast v <> EIdent x) -> ~ wf_st (SMCall a m [v; p]).
+Proof. exact macro_var_needed. Qed.
+
+(** l.filter(x, x > 1).all(y, has(y.f)) || b : macros nest through receivers and bodies *)
+Example C04_ex_macro :
+  let t := SOr (SMCall (SMCall (SId $"l") $"filter" [SId $"x"; SRel TGt (SId $"x") (SLit (LInt 1))]) $"all"
+                       [SId $"y"; SCall $"has" [SSel (SId $"y") $"f"]]) [SId $"b"] in
+  wf_st t /\ ids_ok t /\ compile (text (raw t)) = CExpr (ast t) /\
+  compile $"l.filter(x, x > 1).all(y, has(y.f)) || b" = CExpr (ast t) /\
+  ast t = ECall $"_||_" None [expand_all (expand_filter (EIdent $"l") $"x" (ECall $"_>_" None [EIdent $"x"; ELit (VInt 1)])) $"y"
+                                          (ESelect (EIdent $"y") $"f" true); EIdent $"b"].
+Proof. vm_compute. repeat split; try discriminate; reflexivity. Qed.
+
 (** .pkg.T{f: a + b, g: [x.y]} * 2 : a message literal is a primary; its name keeps the leading dot *)
 Example C04_ex_message :
   let t := SMul TStar (SMsg true [$"pkg"; $"T"] [($"f", SAdd TPlus (SId $"a") (SId $"b")); ($"g", SLst [SSel (SId $"x") $"y"])])
@@ -132,3 +166,6 @@ Print Assumptions C04_macro_around.
 Print Assumptions C04_roundtrip.
 Print Assumptions C04_roundtrip_any_fuel.
 Print Assumptions C04_source_roundtrip.
+Print Assumptions C04_macro_trees.
+Print Assumptions C04_macro_wf.
+Print Assumptions C04_macro_var_needed.
